@@ -96,7 +96,7 @@ def run(ctx, proof):
                          "without `=`; optionally a literal suffix after the group, the group behind a definition, `||` instead of `|`; every "
                          "value in full + new word, every prefix of every value as the typed word x COMP_WORDBREAKS {default, empty}; "
                          "non-trivial = distinct (grammar, request) involving a value that is a proper prefix of another")
-    n = 4000 if ctx.thorough() else 160
+    n = 1600 if ctx.thorough() else 160
     dwb = complete.default_wordbreaks()
     jobs = []
     for i in range(n):
